@@ -1,6 +1,7 @@
 package main
 
 import (
+	"strconv"
 	"fmt"
 	"go/token"
 	"go/types"
@@ -404,7 +405,41 @@ func (w *World) structFieldOrigins(v ssa.Value, f int, seen map[ssa.Value]bool, 
 	case *ssa.Const:
 		return []origin{{oNil, x, "zero value"}}
 	case *ssa.Call:
-		// struct returned by a call: be conservative unless the callee is an Interface method result (received model)
+		// struct returned by a module helper (`res = s.trim(full)`): the field's origins are those of the field of what
+		// the helper returns, its parameters standing for the caller's arguments
+		if callee := x.Call.StaticCallee(); callee != nil && len(callee.Blocks) > 0 && w.InModule(w.unwrap(callee)) && !fseen[w.unwrap(callee)] {
+			callee = w.unwrap(callee)
+			fs2 := copySet(fseen)
+			fs2[callee] = true
+			var out []origin
+			okAll := true
+			allInstrs(callee, func(ins ssa.Instruction) {
+				ret, isRet := ins.(*ssa.Return)
+				if !isRet || len(ret.Results) != 1 {
+					return
+				}
+				for _, o := range w.structFieldOrigins(ret.Results[0], f, map[ssa.Value]bool{}, fs2) {
+					if o.Kind != oParam {
+						out = append(out, o)
+						continue
+					}
+					pi := paramIndex(callee, o.V)
+					pf, err := strconv.Atoi(o.Why)
+					if pi < 0 || pi >= len(x.Call.Args) || err != nil {
+						okAll = false
+						continue
+					}
+					if pf < 0 {
+						out = append(out, w.sliceOrigins(x.Call.Args[pi], seen, fseen)...)
+					} else {
+						out = append(out, w.structFieldOrigins(x.Call.Args[pi], pf, seen, fseen)...)
+					}
+				}
+			})
+			if okAll && len(out) > 0 {
+				return out
+			}
+		}
 		return []origin{{oOther, x, "field of the result of " + w.calleeName(&x.Call)}}
 	case *ssa.Parameter:
 		return []origin{{oParam, x, fmt.Sprint(f)}}
